@@ -148,6 +148,9 @@ def main():
     cov = sysrun.model_part(ck, "C14", variants=["rankmodes", "unfitted"], tier=ck.tier, configs=cfgs)
     limit = 30 if ck.tier == "quick" else 256
     jobs = sysrun.product_jobs(FACTORS, {"n_particles": 16, "clustering": True}, ck.seed + 14, limit=limit, n_total=48)
+    # deterministic probe of the known finding "degenerate cluster -> singular scale matrix" (see known_findings.json)
+    jobs.append({"conf": dict(sample="rwm", clustering=True, n_particles=16, target="edge", support=0.5), "seed": 1001, "n_total": 32,
+                 "label": "probe: degenerate cluster (known finding)"})
     sc, traces = sysrun.system_part(ck, "C14", jobs, nontrivial)
     cov.update(sc)
     cov.update(sysrun.selftest(traces[0]))
